@@ -64,6 +64,8 @@ def generate(tier, rng):
                         yield {"fam": "iter", "tree": t, "start": t[0], "kind": k, "filter_out": [], "stop": [],
                                "maxlevel": None, "defaults": True, "cls": rng.choice(["nm", "light", "eq", "falsy"]),
                                "consume": mode, "k": cut}
+    for c in _big(tier, rng):
+        yield c
     nrand = 150 if tier == "quick" else 1500
     big = 12 if tier == "quick" else 40
     for _ in range(nrand):
@@ -77,6 +79,20 @@ def generate(tier, rng):
                 if rng.random() < 0.3:
                     c["consume"] = rng.choice(["forbreak", "next", "twoiters"])
                     c["k"] = rng.randrange(0, n + 1)
+                yield c
+
+
+def _big(tier, rng):
+    for sh in gen.big_shapes(rng, tier):
+        t = gen.labelled(sh, rng, rng.random() < 0.7)
+        dl = gen.deep_labels(t)
+        for start in [t[0], dl[len(dl) // 2], dl[1] if len(dl) > 1 else t[0]]:
+            for k in KINDS:
+                c = {"fam": "iter", "tree": t, "start": start, "kind": k, "filter_out": [], "stop": [], "maxlevel": None,
+                     "defaults": rng.random() < 0.5, "cls": rng.choice(["nm", "light", "eq", "falsy"])}
+                if rng.random() < 0.3:
+                    c["consume"] = rng.choice(["forbreak", "next", "twoiters"])
+                    c["k"] = rng.randrange(0, gen.tree_size(t) + 1)
                 yield c
 
 
